@@ -51,6 +51,8 @@ ASSUMPTIONS = [
     "likelihood functions: lnL and parameter values are compared with an absolute tolerance of 1e-9, everything else exactly (json floats round-trip exactly in CPython)",
     "states whose producing operation already disagrees with the owning property's model (C01 / C03 / C04 findings) are not entered",
     "the rich-dict channel hands to_rich_dict() directly to deserialise_object (documented to accept a dict)",
+    "the library's process-wide lost-span cache (cogent3.core.location._lost_span_cache) is emptied at the start of every shard so that verdicts do not depend on shard order; "
+    "the situation 'an alignment's gap map was turned into a feature map earlier in the process' is entered deliberately as a state class of the FeatureMap part",
     "optimise() is run with local=True, max_evaluations=5, limit_action='ignore' (deterministic Powell), so the optimised state is reproducible",
 ]
 EXHAUSTIVE = True
@@ -64,7 +66,7 @@ def bounds(tier):
             "views": {"max_parent_len": 3, "depth": 2, "steps": [1, 2, -1, -2], "offsets": [0, 3]},
             "alignments": {"rows": 2, "deep_len": 2, "deep_depth": 2, "shallow_len": 3, "shallow_depth": 0, "moltypes": ["dna"], "ops": "views"},
             "new_collections": {"max_len": 3, "depth": 2},
-            "annotated": {"L": 4, "depth": 2, "steps": [1, 2], "offsets": [0, 3], "aln_len": 3},
+            "annotated": {"L": 4, "depth": 2, "steps": [1, 2], "offsets": [0, 3], "aln_len": 2},
             "annotation_dbs": {"depth": 1},
             "maps": {"indel_len": 5, "fmap_parent": 4, "fmap_spans": 2},
             "trees": {"max_tips": 4, "depth": 2},
@@ -75,7 +77,7 @@ def bounds(tier):
             "views": {"max_parent_len": 5, "depth": 2, "deep_parent_len": 3, "deep_depth": 3, "steps": [1, 2, 3, -1, -2, -3], "offsets": [0, 3]},
             "alignments": {"rows": 2, "deep_len": 3, "deep_depth": 2, "shallow_len": 4, "shallow_depth": 1, "moltypes": ["dna", "rna", "protein"]},
             "new_collections": {"max_len": 4, "depth": 3},
-            "annotated": {"L": 6, "depth": 2, "steps": [1, 2, 3], "offsets": [0, 3], "aln_len": 4},
+            "annotated": {"L": 6, "depth": 2, "steps": [1, 2, 3], "offsets": [0, 3], "aln_len": 3},
             "annotation_dbs": {"depth": 2},
             "maps": {"indel_len": 8, "fmap_parent": 5, "fmap_spans": 2},
             "trees": {"max_tips": 5, "depth": 2},
@@ -484,8 +486,19 @@ def observe_coll(c, ch):
 
 
 def aln_class(aln, m, hist):
+    """structural class: the class and, for the annotatable class, what its rows' sequence views look like"""
     f = [type(aln).__name__]
-    f.append("as constructed" if not hist else "after " + "/".join(sorted({c3.op_label(c3.unjson(op)).split("(")[0] for op in hist})))
+    if type(aln).__name__ == "Alignment":
+        views = [getattr(a.data, "_seq", None) for a in aln.named_seqs.values()]
+        views = [v for v in views if v is not None]
+        if any(getattr(v, "is_reversed", False) for v in views):
+            f.append("rows are reversed views")
+        elif any(len(v) != v.seq_len for v in views):
+            f.append("rows are sliced views")
+        else:
+            f.append("rows are whole sequences")
+    else:
+        f.append("as constructed" if not hist else "derived")
     return ", ".join(f)
 
 
@@ -521,8 +534,8 @@ def check_aln_state(aln, m, case0, hist, acc):
 def alns_explore(spec, acc):
     mol, rows0, depth = spec["mol"], dict(spec["rows"]), spec["depth"]
     m0 = c3.Model(rows0, mol)
-    case0 = {"part": "alignments", "mol": mol, "rows": list(rows0.items())}
     for array in (False, True):
+        case0 = {"part": "alignments", "mol": mol, "rows": list(rows0.items()), "array": array}
         try:
             a0 = c3.make_aln(rows0, mol, array)
         except Exception:  # noqa: BLE001
@@ -592,14 +605,14 @@ def alns_run(spec, acc):
 
 def alns_replay(case, acc):
     mol, rows0 = case["mol"], dict((n, s) for n, s in case["rows"])
-    aln = c3.make_aln(rows0, mol, case["cls"] == "ArrayAlignment")
+    aln = c3.make_aln(rows0, mol, case["array"])
     m = c3.Model(rows0, mol)
     for op in case["history"]:
         r, m2, probs, outcome = c3.step(aln, m, c3.unjson(op))
         if probs or r is None:
             return
         aln, m = r, m2
-    check_aln_state(aln, m, {"part": "alignments", "mol": mol, "rows": case["rows"]}, case["history"], acc)
+    check_aln_state(aln, m, {"part": "alignments", "mol": mol, "rows": case["rows"], "array": case["array"]}, case["history"], acc)
 
 
 # ============================================================================= part: new-style SequenceCollection (own small K1)
@@ -671,11 +684,16 @@ def coll_ops(model):
 
 
 def coll_key(c):
+    """content key of a new-style collection: names, moltype, stored strings, reversal flags and each member's view fields"""
     sd = c.seqs
     parts = [type(c).__name__, c.moltype.label, tuple(c.names)]
     for n in c.names:
-        parts.append(c1.view_record(c.seqs[n]))
-    parts.append(repr(getattr(sd, "reversed", None)))
+        seq = c.seqs[n]
+        v = seq._seq
+        parts.append((type(seq).__name__, type(v).__name__) + tuple(getattr(v, a, None) for a in ("start", "stop", "step", "offset", "seq_len", "seqid")) + (str(seq), seq.name))
+    rev = getattr(sd, "reversed", None)
+    parts.append(tuple(sorted(rev)) if isinstance(rev, (set, frozenset)) else repr(rev))
+    parts.append(tuple(sorted((str(k), str(sd.get_seq_str(seqid=k))) for k in getattr(sd, "names", []))))
     return tuple(parts)
 
 
@@ -909,8 +927,9 @@ def annot_shards(b):
         for off, attach in [(0, "add_feature")] + [(o, "attached db") for o in b["offsets"]]:
             for fc in range(2):
                 out.append({"part": "annotated", "kind": "seq", "impl": impl, "off": off, "attach": attach, "L": b["L"], "depth": b["depth"], "steps": b["steps"], "fchunk": fc, "fchunks": 2})
-    for c in range(4):
-        out.append({"part": "annotated", "kind": "aln", "L": b["aln_len"], "chunk": c, "of": 4})
+    n = 2 if b["aln_len"] < 3 else 5
+    for c in range(n):
+        out.append({"part": "annotated", "kind": "aln", "L": b["aln_len"], "chunk": c, "of": n})
     return out
 
 
@@ -988,7 +1007,6 @@ def dbs_explore(spec, acc):
         for state, hist in frontier:
             if d > 0:
                 acc.transitions += 1
-            acc.traces += 1
             db = check_db_state(cls, init_name, hist, acc) if state[0] != "err" else None
             if db is None:
                 continue
@@ -1065,9 +1083,22 @@ def indel_states(s):
         yield ["joined", [[0, 1], [L - 1, L]]], m.joined_segments([(0, 1), (L - 1, L)])
 
 
-def fmap_states(desc, P):
+PRIMER = "A-C--D"  # gap runs of length 1 and 2
+
+
+def prime_lost_span_cache():
+    """what any gapped Alignment does when its features are queried: IndelMap.to_feature_map() creates lost spans from numpy integers"""
+    c8.build_map(PRIMER).to_feature_map()
+
+
+def fmap_states(desc, P, primed=False):
+    if primed:
+        reset_library_caches()
+        prime_lost_span_cache()
     fm = c8.make_fmap(desc, P)
     yield ["construct"], fm
+    if primed:
+        return
     n = len(fm)
     for a in range(n + 1):
         for b in range(a, n + 1):
@@ -1096,6 +1127,13 @@ def maps_run(spec, acc):
                 cls = "as constructed" if label == ["construct"] else f"after {label[0]}"
                 check_roundtrips(acc, "IndelMap", cls, m, observe_indel, {"part": "maps", "kind": "indel", "s": s, "op": label},
                                  nontrivial="-" in s and bool(c8.degap(s)))
+            # the feature map of the gap layout
+            reset_library_caches()
+            acc.state(1)
+            acc.transitions += 1
+            check_roundtrips(acc, "FeatureMap", "made by IndelMap.to_feature_map()", c8.build_map(s).to_feature_map(), observe_fmap,
+                             {"part": "maps", "kind": "indel", "s": s, "op": ["to_feature_map"]}, nontrivial="-" in s and bool(c8.degap(s)))
+            reset_library_caches()
         acc.sample({"part": "maps", "kind": "IndelMap", "length": spec["n"], "states": "construct, every slice, reversal, termini unknown, x3, joined segments"}, "maps-indel")
     else:
         P, k = spec["P"], spec["k"]
@@ -1114,6 +1152,14 @@ def maps_run(spec, acc):
                 cls = "as constructed" if label == ["construct"] else f"after {label[0]}"
                 check_roundtrips(acc, "FeatureMap", cls, fm, observe_fmap, {"part": "maps", "kind": "fmap", "desc": desc, "P": P, "op": label},
                                  nontrivial=len(desc) > 1)
+            if any(d[0] == "l" for d in desc):
+                # the same map built after the library's shared lost-span cache was filled by an alignment's gap map
+                for label, fm in fmap_states(desc, P, primed=True):
+                    acc.state(1)
+                    acc.transitions += 1
+                    check_roundtrips(acc, "FeatureMap", "has a lost span; an IndelMap.to_feature_map() call came first in the process", fm, observe_fmap,
+                                     {"part": "maps", "kind": "fmap", "desc": desc, "P": P, "op": label, "primed": True}, nontrivial=True)
+                reset_library_caches()
         acc.sample({"part": "maps", "kind": "FeatureMap", "parent_length": P, "spans": k}, "maps-fmap")
 
 
@@ -1132,17 +1178,21 @@ def maps_shards(b):
 
 
 def maps_replay(case, acc):
-    if case["kind"] == "indel":
+    if case["kind"] == "indel" and case["op"] == ["to_feature_map"]:
+        check_roundtrips(acc, "FeatureMap", "made by IndelMap.to_feature_map()", c8.build_map(case["s"]).to_feature_map(), observe_fmap, {k: case[k] for k in ("part", "kind", "s", "op")})
+    elif case["kind"] == "indel":
         for label, m in indel_states(case["s"]):
             if label == case["op"]:
                 cls = "as constructed" if label == ["construct"] else f"after {label[0]}"
                 check_roundtrips(acc, "IndelMap", cls, m, observe_indel, {k: case[k] for k in ("part", "kind", "s", "op")})
                 return
     else:
-        for label, fm in fmap_states(case["desc"], case["P"]):
+        for label, fm in fmap_states(case["desc"], case["P"], primed=bool(case.get("primed"))):
             if label == case["op"]:
                 cls = "as constructed" if label == ["construct"] else f"after {label[0]}"
-                check_roundtrips(acc, "FeatureMap", cls, fm, observe_fmap, {k: case[k] for k in ("part", "kind", "desc", "P", "op")})
+                if case.get("primed"):
+                    cls = "has a lost span; an IndelMap.to_feature_map() call came first in the process"
+                check_roundtrips(acc, "FeatureMap", cls, fm, observe_fmap, {k: case[k] for k in ("part", "kind", "desc", "P", "op", "primed") if k in case})
                 return
 
 
@@ -1274,7 +1324,6 @@ def trees_explore(spec, acc):
             model = c9.from_real(t)
             for op in tree_ops(model):
                 acc.transitions += 1
-                acc.traces += 1
                 try:
                     # operations documented to return new trees; rebuilt from the history so the receiver is never shared
                     t2 = c9.apply_real(trees_rebuild(init, hist), op)
@@ -1417,7 +1466,6 @@ def lf_hist_explore(spec, acc):
     seen = set()
 
     def visit(hist, d):
-        acc.traces += 1
         lf = lf_hist_build(hist, reduced)
         if lf is None:
             acc.count("histories_refused_by_the_controller")
@@ -1449,14 +1497,10 @@ def lf_hist_explore(spec, acc):
 
 def model_data(name):
     """(alignment rows, moltype) suited to the model"""
-    from cogent3 import get_model
-
-    sm = get_model(name)
-    mol = sm.moltype.label if hasattr(sm, "moltype") else sm.get_alphabet().moltype.label
-    wl = sm.get_word_length() if hasattr(sm, "get_word_length") else 1
-    if mol == "protein":
+    fam = model_family(name)
+    if "protein" in fam:
         return PROT3, "protein"
-    if wl == 3:
+    if "codon" in fam:
         return CODON3, "dna"
     return NT3, "dna"
 
@@ -1534,7 +1578,6 @@ def lf_state_class(name, state):
 
 def lf_static_run(spec, acc):
     name, state = spec["model"], spec["state"]
-    acc.traces += 1
     case = {"part": "lf", "kind": "model", "model": name, "state": state}
     try:
         lf = lf_static_build(name, state)
@@ -1549,15 +1592,24 @@ def lf_static_run(spec, acc):
     acc.sample({"part": "lf", "model": name, "state": state}, "lf-model")
 
 
-def model_family(name):
-    from cogent3 import get_model
+_MODEL_TYPES = {}
+DISCRETE = {"BH", "DT"}
+NON_REVERSIBLE = {"GN", "ssGN", "GNC"}
 
-    sm = get_model(name)
-    cls = type(sm).__name__
-    return {"TimeReversibleNucleotide": "nucleotide", "Nucleotide": "nucleotide", "TimeReversibleCodon": "codon", "Codon": "codon",
-            "TimeReversibleProtein": "protein", "EmpiricalProteinMatrix": "empirical protein", "DiscreteSubstitutionModel": "discrete-time",
-            "NonReversibleNucleotide": "non-reversible nucleotide", "NonReversibleCodon": "non-reversible codon",
-            "StrandSymmetric": "strand-symmetric nucleotide"}.get(cls, cls)
+
+def model_family(name):
+    """family of a named model, from the library's own model table (constructing a codon model takes seconds)"""
+    if not _MODEL_TYPES:
+        from cogent3 import available_models
+
+        for typ, abbr, _ in available_models().to_list():
+            _MODEL_TYPES[str(abbr)] = str(typ)
+    typ = _MODEL_TYPES[name]
+    if name in DISCRETE:
+        return "discrete-time nucleotide"
+    if typ == "protein":
+        return "empirical protein"
+    return ("non-reversible " if name in NON_REVERSIBLE else "") + typ
 
 
 def all_model_names():
@@ -1795,7 +1847,7 @@ def static_items(family, b):
         for lab in labels:
             m = old_mt.get_moltype(lab)
             for kind in ("base", "degen", "gapped", "degen_gapped"):
-                if lab in ("text", "bytes") and kind != "degen_gapped":
+                if lab in ("text", "bytes"):
                     continue  # these molecular types have one alphabet
                 yield (f"old:{lab}:{kind}", "old-style alphabet", "character alphabet", lambda m=m, kind=kind: getattr(m.alphabets, kind), observe_old_alphabet, True)
             yield (f"old:{lab}:alphabet", "old-style alphabet", "character alphabet", lambda m=m: m.alphabet, observe_old_alphabet, True)
@@ -2022,7 +2074,16 @@ def shards(tier, seed):
     return out
 
 
+def reset_library_caches():
+    """cogent3.core.location keeps one shared _LostSpan per length; which instance is in the cache depends on everything the process
+    did before.  Every shard / replay starts from the empty cache; the maps part re-creates the 'primed' situation on purpose."""
+    from cogent3.core import location
+
+    location._lost_span_cache.clear()
+
+
 def run_shard(spec, acc):
+    reset_library_caches()
     with warnings.catch_warnings():
         warnings.simplefilter("ignore")
         PARTS[spec["part"]][1](spec, acc)
@@ -2032,6 +2093,7 @@ def replay(case):
     from vf.kernel.runner import Acc
 
     acc = Acc()
+    reset_library_caches()
     with warnings.catch_warnings():
         warnings.simplefilter("ignore")
         PARTS[case["part"]][2](case, acc)
